@@ -59,11 +59,13 @@ Section Dec.
     else match trav_list (sdec cdec w) cands ds with Ok (cands', r) => Ok (TManyOf k cands' dist srt a, r) | Err e => Err e end.
   Proof. reflexivity. Qed.
 
-  Hypothesis Hsh : shallow w.
-  Hypothesis Hconc : forall ck s v, cdec ck s = Ok v -> hypers_of v = [].
 
   Definition cdec_fails (e : nat) : Prop := exists ck s, cdec ck s = Err e.
-  Definition rejected (v : tmpl) : Prop := Forall (fun h => w h = false) (hypers_of v).
+  (* what is left is rejected by the filter — this conjunct alone needs the filter to be shallow and custom decoders
+     to return concrete values, so it carries the two premises itself *)
+  Definition rejected (v : tmpl) : Prop :=
+    shallow w -> (forall ck s v', cdec ck s = Ok v' -> hypers_of v' = []) -> Forall (fun h => w h = false) (hypers_of v).
+  Ltac rej_kids Hr A B := apply Forall_flat_map; eapply Forall_impl; [|exact Hr]; let Ha := fresh in intros ? Ha; exact (Ha A B).
 
   Definition good (t : tmpl) : Prop := forall p ds1 rest,
     forallb2 valid_p (pts w p t) ds1 = true ->
@@ -164,22 +166,22 @@ Section Dec.
   Lemma dec_good : forall t, good t.
   Proof.
     induction t using tmpl_ind'; intros p ds1 rest Hv.
-    - (* leaf *) destruct ds1; [|discriminate Hv]. simpl. repeat split; [constructor | unfold rejected; simpl; constructor].
+    - (* leaf *) destruct ds1; [|discriminate Hv]. simpl. repeat split; [constructor | unfold rejected; intros _ _; simpl; constructor].
     - (* dict *) simpl in Hv. rewrite sdec_dict.
       pose proof (good_kvs kvs H (fun k => p ++ [KName k]) ds1 rest Hv) as G.
       destruct (trav_kvs (sdec cdec w) kvs (ds1 ++ rest)) as [[kvs' r]|e]; [|exact G].
       destruct G as (-> & Hs & Hr). repeat split; [constructor; auto|].
-      unfold rejected; simpl. apply Forall_flat_map. exact Hr.
+      unfold rejected; intros Hsh Hconc; simpl. rej_kids Hr Hsh Hconc.
     - (* object *) simpl in Hv. rewrite sdec_obj.
       pose proof (good_kvs kvs H (fun k => p ++ [KName k]) ds1 rest Hv) as G.
       destruct (trav_kvs (sdec cdec w) kvs (ds1 ++ rest)) as [[kvs' r]|e]; [|exact G].
       destruct G as (-> & Hs & Hr). repeat split; [constructor; auto|].
-      unfold rejected; simpl. apply Forall_flat_map. exact Hr.
+      unfold rejected; intros Hsh Hconc; simpl. rej_kids Hr Hsh Hconc.
     - (* list *) simpl in Hv. rewrite sdec_list.
       pose proof (good_list ts H (fun i => p ++ [KIdx i]) 0 ds1 rest Hv) as G.
       destruct (trav_list (sdec cdec w) ts (ds1 ++ rest)) as [[ts' r]|e]; [|exact G].
       destruct G as (-> & Hs & Hr). repeat split; [constructor; auto|].
-      unfold rejected; simpl. apply Forall_flat_map. exact Hr.
+      unfold rejected; intros Hsh Hconc; simpl. rej_kids Hr Hsh Hconc.
     - (* oneof *) rewrite sdec_oneof. simpl in Hv. destruct (w (TOneOf cands a)) eqn:W.
       + destruct ds1 as [|x ds1]; simpl in Hv; try discriminate.
         apply andb_true_iff in Hv as [Hx Hn]. destruct ds1; [|discriminate Hn].
@@ -193,9 +195,9 @@ Section Dec.
       + pose proof (good_list cands H (fun i => p ++ [KName s_candidates; KIdx i]) 0 ds1 rest Hv) as G.
         destruct (trav_list (sdec cdec w) cands (ds1 ++ rest)) as [[cands' r]|e]; [|simpl; rewrite W; exact G].
         destruct G as (-> & Hs & Hr). repeat split; [apply shape_oneof_out; auto|].
-        unfold rejected; simpl. constructor.
+        unfold rejected; intros Hsh Hconc; simpl. constructor.
         * rewrite <- W. apply Hsh. apply sh_oneof_len. symmetry. eapply Forall2_length'; eauto.
-        * apply Forall_flat_map. exact Hr.
+        * rej_kids Hr Hsh Hconc.
     - (* manyof *) rewrite sdec_manyof. simpl in Hv. destruct (w (TManyOf k cands d s a)) eqn:W.
       + destruct ds1 as [|x ds1]; simpl in Hv; try discriminate.
         apply andb_true_iff in Hv as [Hx Hn]. destruct ds1; [|discriminate Hn].
@@ -206,28 +208,28 @@ Section Dec.
         destruct (map_res (choice_of cands) cs) as [vs|e]; [|destruct G as [G1 G2]; split; auto; simpl; rewrite W; simpl; rewrite G2; reflexivity]. destruct G as (Hl & Hs & Hr).
         repeat split; auto.
         * apply shape_manyof; auto. apply Nat.eqb_eq in Hlen. congruence.
-        * unfold rejected; simpl. apply Forall_flat_map. exact Hr.
+        * unfold rejected; intros Hsh Hconc; simpl. rej_kids Hr Hsh Hconc.
       + pose proof (good_list cands H (fun i => p ++ [KName s_candidates; KIdx i]) 0 ds1 rest Hv) as G.
         destruct (trav_list (sdec cdec w) cands (ds1 ++ rest)) as [[cands' r]|e]; [|simpl; rewrite W; exact G].
         destruct G as (-> & Hs & Hr). repeat split; [apply shape_manyof_out; auto|].
-        unfold rejected; simpl. constructor.
+        unfold rejected; intros Hsh Hconc; simpl. constructor.
         * rewrite <- W. apply Hsh. apply sh_manyof_len. symmetry. eapply Forall2_length'; eauto.
-        * apply Forall_flat_map. exact Hr.
+        * rej_kids Hr Hsh Hconc.
     - (* float *) simpl in Hv. simpl. destruct (w (TFloat lo hi a)) eqn:W.
       + destruct ds1 as [|x ds1]; simpl in Hv; try discriminate.
         apply andb_true_iff in Hv as [Hx Hn]. destruct ds1; [|discriminate Hn].
         destruct x as [cs|f|]; simpl in Hx; try discriminate. simpl. rewrite Hx.
-        apply andb_true_iff in Hx as [H1 H2]. repeat split; [apply shape_float; auto; lia | unfold rejected; simpl; constructor].
+        apply andb_true_iff in Hx as [H1 H2]. repeat split; [apply shape_float; auto; lia | unfold rejected; intros _ _; simpl; constructor].
       + destruct ds1; [|discriminate Hv]. simpl. repeat split; [apply shape_float_out; auto|].
-        unfold rejected; simpl. constructor; auto.
+        unfold rejected; intros _ _; simpl. constructor; auto.
     - (* custom *) simpl in Hv. simpl. destruct (w (TCustom ck a)) eqn:W.
       + destruct ds1 as [|x ds1]; simpl in Hv; try discriminate.
         apply andb_true_iff in Hv as [Hx Hn]. destruct ds1; [|discriminate Hn].
         destruct x as [cs|f|s]; simpl in Hx; try discriminate. simpl.
         destruct (cdec ck s) as [v|e] eqn:E; [|split; [exists ck, s; auto | reflexivity]].
-        repeat split; [eapply shape_custom; eauto|]. unfold rejected. rewrite (Hconc _ _ _ E). constructor.
+        repeat split; [eapply shape_custom; eauto|]. unfold rejected; intros _ Hconc. rewrite (Hconc _ _ _ E). constructor.
       + destruct ds1; [|discriminate Hv]. simpl. repeat split; [apply shape_custom_out; auto|].
-        unfold rejected; simpl. constructor; auto.
+        unfold rejected; intros _ _; simpl. constructor; auto.
   Qed.
 End Dec.
 
@@ -235,16 +237,26 @@ End Dec.
 Definition custom_concrete (cdec : nat -> str -> result tmpl) : Prop := forall ck s v, cdec ck s = Ok v -> hypers_of v = [].
 Definition custom_total (cdec : nat -> str -> result tmpl) : Prop := forall ck s, exists v, cdec ck s = Ok v.
 
+Lemma decode_valid0 : forall cdec w t d, valid (dna_spec w t) d = true ->
+  match sdecode cdec w t d with
+  | Ok v => shape cdec w t v /\ rejected cdec w v
+  | Err e => (exists ck s, cdec ck s = Err e) /\ finite (dna_spec w t) = false
+  end.
+Proof.
+  intros cdec w t [ds] Hv. simpl in Hv. unfold sdecode.
+  pose proof (dec_good cdec w t [] ds [] Hv) as G. rewrite app_nil_r in G.
+  destruct (sdec cdec w t ds) as [[v r]|e]; simpl; auto.
+  destruct G as (-> & Hs & Hr). auto.
+Qed.
+
 Lemma decode_valid : forall cdec w t d, shallow w -> custom_concrete cdec -> valid (dna_spec w t) d = true ->
   match sdecode cdec w t d with
   | Ok v => shape cdec w t v /\ Forall (fun h => w h = false) (hypers_of v)
   | Err e => (exists ck s, cdec ck s = Err e) /\ finite (dna_spec w t) = false
   end.
 Proof.
-  intros cdec w t [ds] Hsh Hc Hv. simpl in Hv. unfold sdecode.
-  pose proof (dec_good cdec w Hsh Hc t [] ds [] Hv) as G. rewrite app_nil_r in G.
-  destruct (sdec cdec w t ds) as [[v r]|e]; simpl; auto.
-  destruct G as (-> & Hs & Hr). auto.
+  intros cdec w t d Hsh Hc Hv. pose proof (decode_valid0 cdec w t d Hv) as G.
+  destruct (sdecode cdec w t d); auto. destruct G as [Hs Hr]. split; auto.
 Qed.
 
 Lemma decode_concrete : forall cdec w t d v, shallow w -> custom_concrete cdec ->
@@ -261,22 +273,23 @@ Proof.
   destruct (hypers_of v); auto. inv G. discriminate.
 Qed.
 
-Lemma decode_shape : forall cdec w t d v, shallow w -> custom_concrete cdec ->
+(* no premise on the filter or on user code *)
+Lemma decode_shape : forall cdec w t d v,
   valid (dna_spec w t) d = true -> sdecode cdec w t d = Ok v -> shape cdec w t v.
-Proof. intros. pose proof (decode_valid cdec w t d H H0 H1) as G. rewrite H2 in G. apply G. Qed.
+Proof. intros. pose proof (decode_valid0 cdec w t d H) as G. rewrite H0 in G. apply G. Qed.
 
-Lemma decode_total : forall cdec w t d, shallow w -> custom_concrete cdec -> custom_total cdec ->
+Lemma decode_total : forall cdec w t d, custom_total cdec ->
   valid (dna_spec w t) d = true -> exists v, sdecode cdec w t d = Ok v.
 Proof.
-  intros. pose proof (decode_valid cdec w t d H H0 H2) as G.
+  intros. pose proof (decode_valid0 cdec w t d H0) as G.
   destruct (sdecode cdec w t d) as [v|e]; eauto.
-  destruct G as [(ck & s & E) _]. destruct (H1 ck s) as [v E']. congruence.
+  destruct G as [(ck & s & E) _]. destruct (H ck s) as [v E']. congruence.
 Qed.
 
 (* on a finite space (no float, no custom point) no user code is consulted *)
-Lemma decode_total_finite : forall cdec w t d, shallow w -> custom_concrete cdec -> finite (dna_spec w t) = true ->
+Lemma decode_total_finite : forall cdec w t d, finite (dna_spec w t) = true ->
   valid (dna_spec w t) d = true -> exists v, sdecode cdec w t d = Ok v.
 Proof.
-  intros. pose proof (decode_valid cdec w t d H H0 H2) as G.
+  intros. pose proof (decode_valid0 cdec w t d H0) as G.
   destruct (sdecode cdec w t d) as [v|e]; eauto. destruct G as [_ G]. congruence.
 Qed.
